@@ -114,6 +114,8 @@ type trans struct {
 	localAllocs   map[*ssa.Alloc]bool
 	heapRefs      map[string]string
 	assertDone    map[string]bool
+	checkNowhere  map[string][]string
+	checkStated   map[string]bool
 	invLines      map[int]map[string][]int
 	extraCallVars map[string]SV
 	curCallee     ssa.Value
